@@ -669,6 +669,25 @@ func runC16(c *Ctx, idx int64) {
 			return
 		}
 	}
+	// ---- ranking probes: nothing typed, in each context once (plain line forms)
+	for _, slot := range []string{"payee", "account", "commodity", "tagname"} {
+		var p *c16Probe
+		for try := 0; try < 300; try++ {
+			if p = c16MakeProbe(r, u); p.Slot == slot && p.Frag == "" && !strings.Contains(p.Variant, "directive") {
+				break
+			}
+			p = nil
+		}
+		if p == nil {
+			continue
+		}
+		text, pl, ch := place(p)
+		setText(text)
+		c.Count("ranking_probes", 1)
+		if !judge(p, text, pl, ch, u, "ranking probe", false) {
+			return
+		}
+	}
 	// ---- history: the same request again after another file of the scope gained names
 	if scope := w.Scope(f); len(scope) >= 2 {
 		g := scope[r.Intn(len(scope))]
